@@ -1,7 +1,7 @@
 (* C18 — the judge is sound: whenever the model (save_fixed) reproduces an observation, the observation
    satisfies Spec/SaveFSSpec.v.  Hence on a case with v_model = true, v_spec = true is a theorem, and a
    spec failure can only come together with a model disagreement. *)
-From JV Require Import Lib.Base Model.SaveFS Spec.SaveFSSpec Proofs.SaveFSProofs Corr.C18Judge.
+From JV Require Import Lib.Base Model.SaveFS Spec.SaveFSSpec Proofs.SaveFSProofs Proofs.SaveFsspecProofs Corr.C18Judge.
 
 Lemma node_eqb_eq x y : node_eqb x y = true -> x = y.
 Proof.
@@ -28,35 +28,82 @@ Qed.
 Lemma kind_of_failed e k : okind_eqb (kind_of e) k = true -> negb (okind_eqb k KOk) = is_some e.
 Proof. destruct e as [[]|], k; simpl; intro H; try discriminate; reflexivity. Qed.
 
+(* whatever save function the judge is instantiated with: if, on this input, it has the four properties
+   (failed => unchanged, no silent overwrite, frame, success => reads back), then an observation it reproduces
+   satisfies the spec *)
+Section Core.
+  Variable r : fs * option err.
+  Variable c : case.
+  Let i := c_in c.
+  Hypothesis A : forall e, snd r = Some e -> fst r = i_fs i.
+  Hypothesis B : i_overwrite i = false -> forall n x, lookup (i_fs i) n = Some x -> lookup (fst r) n = Some x.
+  Hypothesis C : forall m, ~ In m (targets i) -> lookup (fst r) m = lookup (i_fs i) m.
+  Hypothesis D : snd r = None -> reparse_ok i (fst r) = true.
+
+  Lemma judge_sound_core : model_agrees_of r c = true -> spec_holds c = true.
+  Proof.
+    unfold model_agrees_of, spec_holds, failed_obs. fold i. intro H.
+    apply andb_true_iff in H. destruct H as [H Hrep].
+    apply andb_true_iff in H. destruct H as [Hkind Hsame].
+    destruct r as [f' o] eqn:S. cbn [fst snd] in *.
+    rewrite (kind_of_failed _ _ Hkind) in *.
+    pose proof (fs_same_lookup _ _ Hsame) as L.
+    unfold spec_ok. repeat (apply andb_true_iff; split).
+    - destruct o as [e|]; cbn [is_some] in *.
+      + rewrite (A e eq_refl) in L.
+        unfold fs_same. apply forallb_forall. intros n _. apply agrees_on_eq. apply L.
+      + simpl in Hrep. destruct (i_valid i); simpl in *; [|apply orb_true_r].
+        rewrite (D eq_refl) in Hrep. destruct (c_reparse c); auto.
+    - destruct (i_overwrite i) eqn:Ho; auto. apply forallb_forall. intros n Hn.
+      apply agrees_on_eq. rewrite <- L. apply lookup_in_names in Hn.
+      destruct (lookup (i_fs i) n) as [x|] eqn:Lx; [|congruence].
+      symmetry. apply B; auto.
+    - apply forallb_forall. intros n _. destruct (mem_str n (targets i)) eqn:Mn; auto. simpl.
+      apply agrees_on_eq. rewrite <- L. symmetry. apply C. intro Hin. apply mem_str_In in Hin. congruence.
+  Qed.
+End Core.
+
+Lemma class_zero k m : (if N.eqb k 0 || m then k else 9%N) = 0%N -> k = 0%N.
+Proof. destruct (N.eqb k 0) eqn:Z; [intros _; apply N.eqb_eq; exact Z|]. destruct m; simpl; auto; discriminate. Qed.
+
+(* the current tree: class 0 = local target, no alias clash *)
 Lemma judge_sound_lemma c : v_class (judge1 c) = 0%N -> v_model (judge1 c) = true -> v_spec (judge1 c) = true.
 Proof.
-  unfold judge1. cbn [v_model v_spec v_class]. intros K H.
-  assert (AC : alias_clash (c_in c) = false).
-  { apply classify_zero. destruct (N.eqb (classify (c_in c)) 0) eqn:Z; [apply N.eqb_eq; exact Z|].
-    simpl in K. rewrite H in K. apply N.eqb_neq in Z. contradiction. }
-  clear K. revert H. unfold model_agrees, spec_holds, failed_obs.
-  set (i := c_in c) in *. intro H.
-  apply andb_true_iff in H. destruct H as [H Hrep].
-  apply andb_true_iff in H. destruct H as [Hkind Hsame].
-  destruct (save_fixed i) as [f' o] eqn:S. cbn [fst snd] in *.
-  rewrite (kind_of_failed _ _ Hkind) in *.
-  pose proof (fs_same_lookup _ _ Hsame) as L.
-  assert (Hframe : forall n, mem_str n (targets i) || agrees_on (i_fs i) (c_fs c) n = true).
-  { intro n. destruct (mem_str n (targets i)) eqn:Mn; auto. simpl.
-    apply agrees_on_eq. rewrite <- L. symmetry.
-    replace f' with (fst (save_fixed i)) by (rewrite S; reflexivity).
-    apply fixed_frame_lemma. intro Hin. apply mem_str_In in Hin. congruence. }
-  unfold spec_ok. repeat (apply andb_true_iff; split).
-  - destruct o as [e|]; cbn [is_some] in *.
-    + rewrite (fixed_all_or_nothing_lemma i f' e S) in L.
-      unfold fs_same. apply forallb_forall. intros n _. apply agrees_on_eq. apply L.
-    + simpl in Hrep. destruct (i_valid i); simpl in *; [|apply orb_true_r].
-      rewrite (fixed_save_then_parse_lemma i f' AC S) in Hrep.
-      destruct (c_reparse c); auto.
-  - destruct (i_overwrite i) eqn:Ho; auto. apply forallb_forall. intros n Hn.
-    apply agrees_on_eq. rewrite <- L. apply lookup_in_names in Hn.
-    destruct (lookup (i_fs i) n) as [x|] eqn:Lx; [|congruence].
-    replace f' with (fst (save_fixed i)) by (rewrite S; reflexivity).
-    symmetry. apply fixed_no_overwrite_lemma; auto.
-  - apply forallb_forall. intros n _. apply Hframe.
+  unfold judge1, judge1_with. cbn [v_model v_spec v_class]. intros K H.
+  apply class_zero in K. unfold classify_call in K.
+  destruct (c_kind c) eqn:KD; [|discriminate].
+  apply classify_zero in K. simpl in H.
+  apply (judge_sound_core (save_fixed (c_in c)) c); auto.
+  - intros e He. destruct (save_fixed (c_in c)) as [f' o] eqn:S. simpl in *. subst o.
+    apply (fixed_all_or_nothing_lemma _ _ _ S).
+  - apply fixed_no_overwrite_lemma.
+  - apply fixed_frame_lemma.
+  - intro Hs. destruct (save_fixed (c_in c)) as [f' o] eqn:S. simpl in *. subst o.
+    apply fixed_save_then_parse_lemma; auto.
+Qed.
+
+Lemma judge_fixed_sound_lemma c :
+  v_class (judge1_fixed c) = 0%N -> v_model (judge1_fixed c) = true -> v_spec (judge1_fixed c) = true.
+Proof. apply judge_sound_lemma. Qed.
+
+(* after the fsspec patch: every case, whichever way the target is resolved *)
+Lemma judge_fsfixed_sound_lemma c : v_model (judge1_fsfixed c) = true -> v_spec (judge1_fsfixed c) = true.
+Proof.
+  unfold judge1_fsfixed, judge1_with. cbn [v_model v_spec]. intro H.
+  set (c' := unalias c) in *.
+  assert (AC : alias_clash (c_in c') = false) by (apply alias_clash_no_alias; reflexivity).
+  apply (judge_sound_core (save_impl_fixed (c_kind c') (c_in c')) c'); auto.
+  - intros e He. destruct (save_impl_fixed (c_kind c') (c_in c')) as [f' o] eqn:S. simpl in *. subst o.
+    apply (impl_fixed_all_or_nothing_lemma _ _ _ _ S).
+  - apply impl_fixed_no_overwrite_lemma.
+  - apply impl_fixed_frame_lemma.
+  - intro Hs. destruct (save_impl_fixed (c_kind c') (c_in c')) as [f' o] eqn:S. simpl in *. subst o.
+    apply (impl_fixed_save_then_parse_lemma _ _ _ AC S).
+Qed.
+
+Lemma judge_fsfixed_class_lemma c : v_class (judge1_fsfixed c) = 0%N.
+Proof.
+  unfold judge1_fsfixed, judge1_with. cbn [v_class].
+  assert (classify (c_in (unalias c)) = 0%N) as -> by (apply classify_zero; apply alias_clash_no_alias; reflexivity).
+  reflexivity.
 Qed.
